@@ -592,6 +592,11 @@ def run(ctx):
     rule_d3(a, prov, writes)
     rule_d4(a)
     rule_d5(a, writes)
+    # the request target and Host are built from URL components; that these contain no space, control character or raw
+    # non-ASCII text is the canonical-form construction of C10, re-established here under C16-D1 (shared rules)
+    from . import c10
+    from .common import RemapCtx, url_decode_sites_rule
+    c10.run(RemapCtx(ctx, {'C10-D1': 'C16-D1', 'C10-D2': 'C16-D1', 'C10-D3': 'C16-D1', 'C10-D4': 'C16-D1', 'C10-D5': 'C16-D1'}))
 
 
 # ====================================================================== D1
